@@ -49,8 +49,9 @@ Definition a_enqueue (a : astate) (data : list Z) (ow : owner) (link : option na
 Definition a_set_r_sent (a : astate) (b : bool) : astate :=
   mkA (a_q a) (a_smq a) (a_next a) (a_sm_enabled a) b (a_sent_nr a) (a_connected a) (a_sched a) (a_wire a) (a_log a).
 
-Definition a_send (a : astate) (ow : owner) (data : list Z) : astate :=
+Definition a_send (a : astate) (ow0 : owner) (data : list Z) : astate :=
   if a_connected a then
+    let ow := effective_owner (a_sm_enabled a) ow0 in
     let '(a1, item) := a_enqueue a data ow None in
     if negb (is_sm ow) && a_sm_enabled a1 && negb (a_r_sent a1) then
       let a2 := a_set_r_sent a1 true in
@@ -225,8 +226,9 @@ Definition abs (sm : bool) (ops : list op) : astate := fst (a_run ops (a_init sm
 Definition lkey (l : lentry) : nat * owner * list Z := (e_id (l_e l), e_owner (l_e l), e_data (l_e l)).
 Definition submitted (a : astate) (o : op) : list (nat * owner * list Z) :=
   match o with
-  | OSend ow d =>
+  | OSend ow0 d =>
     if a_connected a then
+      let ow := effective_owner (a_sm_enabled a) ow0 in
       (a_next a, ow, d) ::
       (if negb (is_sm ow) && a_sm_enabled a && negb (a_r_sent a) then [(S (a_next a), OwSmLib, req_ack)] else [])
     else []
